@@ -1145,7 +1145,7 @@ var c17FixedPaths = []string{"/a<k>", "/a/<k>", "a<k>", "a/b", "/a/b/", "//a//b/
 
 func c17Gen(tier string, rng *rand.Rand) []c17Case {
 	var cs []c17Case
-	nd, ns := 220, 160
+	nd, ns := 170, 120
 	if tier == "thorough" {
 		nd, ns = 1200, 2500
 	}
